@@ -158,3 +158,9 @@ pub fn sym_b() -> String { String::new() }
 #[derive(TS)] #[ts(tag = "t", content = "c")] pub enum FV2<T> { A { k: bool, #[ts(flatten)] f: Inner<T> }, B }
 #[derive(TS)] pub struct AT1<T>(#[ts(as = "Vec<T>")] pub i32, pub T);
 #[derive(TS)] pub struct AT2<T>(#[ts(as = "Option<T>")] pub Vec<T>);
+#[derive(TS)] #[ts(tag = "t", content = "c")] pub enum IA3<T> { A(#[ts(as = "Inner<T>", inline)] Vec<T>), B(#[ts(as = "Vec<Inner<T>>")] Vec<T>) }
+#[derive(TS)] #[ts(tag = "t", content = "c")] pub enum IA4<T> { A(#[ts(inline)] Inner<T>), B(Vec<Inner<T>>) }
+#[derive(TS)] #[ts(tag = "t")] pub enum IT3<T> { A(#[ts(as = "Inner<T>", inline)] Vec<T>), B(#[ts(as = "Inner<T>")] Vec<T>) }
+#[derive(TS)] #[ts(tag = "t")] pub enum IT4<T> { A(#[ts(inline)] Inner<T>), B(Inner<T>) }
+#[derive(TS)] pub enum IX3<T> { A(#[ts(as = "Inner<T>", inline)] Vec<T>), B(#[ts(as = "Vec<Inner<T>>", inline)] Vec<T>, T) }
+#[derive(TS)] pub enum IX4<T> { A(#[ts(inline)] Inner<T>), B(#[ts(inline)] Vec<Inner<T>>, T) }
